@@ -12,7 +12,7 @@ META = {
         text="Bounded model checking of the real encode/decode functions with every identifier, round, digest and view entry symbolic over its full range: "
              "the solver finds any value that fails to round-trip (it found sender=256 and member id 256 on the original tree).",
         design_ref="DESIGN.md §4 C13",
-        note="Views up to 4 (6 thorough) entries; SHA-256 as collision-free uninterpreted function for the topic derivation; ASN.1 serialisation of stored data is not encoded.",
+        note="Views up to 4 (6 thorough) entries; SHA-256 as collision-free uninterpreted function for the topic derivation; ASN.1 public parameters and stored share data go through an opaque structure-preserving codec model in whole BLS and PS sessions run with arbitrary symbolic 16-bit party identifiers (encoding/asn1 itself is not executed).",
     ),
     "C02": dict(
         text="Bounded model checking (S2) of the real rbc.Receiver: two honest receivers, all other participants Byzantine, k events chosen and filled in by the solver "
@@ -115,6 +115,6 @@ META = {
     "C19": dict(
         text="Bounded model checking of the real ClassifyMsg/OnMsg of both tss-lib adapters against a routing oracle regenerated on every run from the tss-lib constructors: all pairs of message types, every (claimed key, transport sender) pair.",
         design_ref="DESIGN.md §4 C19",
-        note="protobuf / tss-lib / math/big stubbed; Sign's digest binding read but not encoded.",
+        note="protobuf and the tss-lib parser stubbed in the classification / sender runs; the Sign digest clause and the re-Init run execute math/big (pure-Go sources, build tag math_big_pure_go) and tss-lib's party-id / parameter code from their sources with only the signing party stubbed.",
     ),
 }
